@@ -4,7 +4,7 @@ import re
 from bibtexparser.model import DuplicateFieldKeyBlock, Entry, ParsingFailedBlock
 from bibtexparser.splitter import Splitter
 
-from .. import spaces
+from .. import bigdocs, spaces
 from ..engine import seq_iter, seq_shards
 
 ID = "C03"
@@ -43,6 +43,7 @@ def shards(tier):
     out += [("ext", s) for s in seq_shards(spaces.SIGMA_DOC_EXT, 3 if tier == "quick" else 4)]
     out += spaces.deviation_shards(len(spaces.BASE_DOCS), 1 if tier == "quick" else 2)
     out += [("layout", i) for i in range(len(LAYOUT_WS))]
+    out += [("big", n, v) for n in (bigdocs.SIZES_QUICK if tier == "quick" else bigdocs.SIZES_THOROUGH) for v in (0, 1)]
     return out
 
 
@@ -250,6 +251,19 @@ def check_text(text, acc, case=None):
     judge(text, lib, acc, case)
 
 
+def big_texts(n, v):
+    """The size-n document, 60 truncations of it and 60 single-character deletions / insertions at evenly spread
+    offsets (so that the damage lands in every kind of position: key, value, comment, between blocks)."""
+    text, _ = bigdocs.document(n, v)
+    yield text
+    L = len(text)
+    for k in range(1, 61):
+        cut = (L * k) // 61
+        yield text[:cut]
+        yield text[:cut] + text[cut + 1 :]
+        yield text[:cut] + '{"@}'[k % 4] + text[cut:]
+
+
 def run_shard(shard, tier, acc):
     kind = shard[0]
     if kind == "seq":
@@ -265,6 +279,10 @@ def run_shard(shard, tier, acc):
         for edits, toks in spaces.deviation_iter(shard, spaces.SIGMA_DOC):
             check_text("".join(toks), acc)
         acc.count(f"deviation_k{shard[2]}_docs")
+    elif kind == "big":
+        for text in big_texts(shard[1], shard[2]):
+            acc.count("big_texts")
+            check_text(text, acc, case={"big": [shard[1], shard[2]], "text": text})
     elif kind == "layout":
         for text in layout_iter(shard[1]):
             check_text(text, acc)
